@@ -12,6 +12,7 @@ import json
 import multiprocessing
 import os
 import random
+import time
 import zlib
 
 from .. import certv2, core, tlc
@@ -80,6 +81,97 @@ MSG_SIGONLY_REGIONS = {"attkey": ("body", "body", "report_data_tail"),
                        "quote": ("quote_header", "body", "body", "report_data_tail")}
 
 
+LONG_LENGTHS = (254, 255, 256, 257, 258, 300, 520)     # X.509 elements between attestation key and root
+
+
+def filler_items(tag, k):
+    return [{"name": "%s_%03d" % (tag, i), "time": "Valid", "window": "all", "curve": "P256",
+             "sig": "parent", "naming": "canon", "filler": True} for i in range(k)]
+
+
+def inflate(sp, rng, total=None):
+    """SCALE: the 2 or 3 X.509 items of `sp` stay top, (middle,) bottom of a chain of `total` X.509
+    elements; genuine filler elements make up the rest (boundary-first: 253..255 of them below the
+    middle one, i.e. 254..256 X.509 certificates under the element the middle one certifies)."""
+    xs = sp["x509"]
+    total = total or rng.choice(LONG_LENGTHS)
+    if len(xs) == 2:
+        sp["x509"] = [xs[0]] + filler_items("fa", total - 2) + [xs[1]]
+    else:
+        rest = total - 3
+        lows = [m for m in (253, 254, 255) if m <= rest]
+        lower = rng.choice(lows) if lows and rng.random() < 0.8 else rng.randrange(0, rest + 1)
+        sp["x509"] = [xs[0]] + filler_items("fa", rest - lower) + [xs[1]] + filler_items("fb", lower) + [xs[2]]
+    sp["key_pool"] = 64
+    return sp
+
+
+def deflate(cert, fillers):
+    """The abstract certificate without its filler elements (certifier / signer references that point
+    into a run are moved to the element above the run) - comparable with TLC's short chain."""
+    fs = set(fillers)
+    if not fs:
+        return cert
+
+    def up(n):
+        while n in fs:
+            n = cert[n]["by"]
+        return n
+    out = {}
+    for n, e in cert.items():
+        if n in fs:
+            continue
+        e2 = dict(e)
+        if e2["sigBy"] in fs:
+            a = up(e2["sigBy"])
+            e2["sigBy"] = cert[a]["key"] if a in cert else a
+        if e2["by"] in fs:
+            e2["by"] = up(e2["by"])
+        out[n] = e2
+    return out
+
+
+def scale_profiles(rng, quick):
+    """Explicit long chains (depth 254 .. 520): all valid; one defect (expired / not yet valid / wrong
+    signer / other curve) at the top, in the middle, at the bottom; the genuine root certificate
+    re-appearing in the middle (254 +/- 1 X.509 certificates below what it certifies) of a chain whose
+    real top is fine / expired / wrongly signed."""
+    out = []
+
+    def base(total):
+        sp = certv2.default_spec(3)
+        sp["x509"] = [{"name": "platform_ca", "time": "Valid", "curve": "P256", "sig": "parent"}] + \
+            filler_items("ca", total - 2) + \
+            [{"name": "quoting_enclave", "time": "Valid", "curve": "P256", "sig": "parent"}]
+        sp["key_pool"] = 64
+        sp["vary_content"] = True
+        sp["shuffle"] = rng.random() < 0.5
+        return sp
+    for total in LONG_LENGTHS:
+        full = (not quick) or total in (254, 256, 257, 520)
+        out.append(({"spec": base(total), "flips": []}, {"src": "scale", "x509": total, "case": "genuine"}))
+        if not full:
+            continue
+        for pos_name, pos in (("top", 0), ("middle", total // 2), ("bottom", total - 1)):
+            for what, edit in (("expired", {"time": "Expired"}), ("notyet", {"time": "NotYet"}),
+                               ("wrongsigner", {"sig": "other"}), ("othercurve", {"curve": "P384"})):
+                sp = base(total)
+                sp["x509"][pos].update(edit)
+                sp["x509"][pos].pop("filler", None)
+                out.append(({"spec": sp, "flips": []},
+                            {"src": "scale", "x509": total, "case": "%s@%s" % (what, pos_name)}))
+        for below in (253, 254, 255):
+            r = total - 2 - below if total - 2 - below >= 1 else total // 2
+            for top_name, edit in (("fine", {}), ("expired", {"time": "Expired"}), ("wrongsigner", {"sig": "other"})):
+                sp = base(total)
+                sp["x509"][r] = {"name": "root_again", "is_root": True}
+                sp["x509"][0].update(edit)
+                out.append(({"spec": sp, "flips": []},
+                            {"src": "scale", "x509": total,
+                             "case": "root-reappears@%d-below,top-%s" % (total - 2 - r, top_name)}))
+    return out
+
+
 def plans_for(b, rng, nflip):
     """Concretisation plans of one abstract certificate: plan 0 realises every defect structurally
     (another key, another hash input, ...), plans 1..nflip realise every defect that byte corruption
@@ -135,6 +227,9 @@ def plans_for(b, rng, nflip):
                                       "region": rng.choice(X509_FLIP_REGIONS)})
                     else:
                         sp["embed"]["sig"] = "other"
+            elif e["kind"] == "x509" and e["key"] == ROOT:
+                # this chain element IS the genuine root certificate, re-appearing below the top
+                sp["x509"][int(n[1:]) - 1]["is_root"] = True
             elif e["kind"] == "x509":
                 xs = sp["extra"][0] if n == "spare" else sp["x509"][int(n[1:]) - 1]
                 if e["sigBy"] == "foreign":
@@ -193,6 +288,8 @@ def plans_for(b, rng, nflip):
                         flips.append({"el": cn, "field": "key", "region": "xy"})
                     else:
                         es["key"] = "offcurve"
+        if b.get("len") == "long":
+            inflate(sp, rng)
         tz = b.get("tz", "utc")
         if tz != "utc":
             sp["time_edge"] = True      # an offset matters where the clock is a step from a boundary
@@ -536,6 +633,7 @@ def _run_task(task):
          "signed": signed_values(mat) if obs["valid"] else EMPTY_VALUES,
          "unspecified": abstract["unspecified"], "exc": obs["exc"], "applied": applied,
          "meta": dict(meta, frozen_clock=clock is not None, tz=tz),
+         "fillers": [x["name"] for x in mat["spec"]["x509"] if x.get("filler")] if not plan.get("base") else [],
          "concrete": zlib.compress(json.dumps({"certificate": cert, "root_pem": root_pem,
                                                "clock": clock, "tz": tz}).encode())}
     # the same question put to an object that was first asked about another root of trust
@@ -590,6 +688,7 @@ def _run_history(tid, plan, meta, scratch, cert, root_pem, mat, abstract, applie
     t["history_outcomes"] = ["valid" if x["valid"] else ("invalid" if x["loaded"] else "loaderror")
                              for x in traces]
     t["final"] = {"cert": traces[-1]["cert"], "rot": traces[-1]["rot"]}
+    t["fillers"] = [x["name"] for x in mat["spec"]["x509"] if x.get("filler")]
     t["also"] = traces[1:]
     return t
 
@@ -658,6 +757,11 @@ def defects_of(abstract):
             out.append("%s:binds=F" % k)
         if k == "attkey" and not e["keyValid"]:
             out.append("attkey:key=invalid")
+    nx = sum(1 for n, e in cert.items() if e["kind"] == "x509" and n != ROOT)
+    if nx > 3:
+        out.append("x509-elements:%s" % ("4..255" if nx < 256 else "256+"))
+    if any(n != ROOT and e["kind"] == "x509" and e["key"] == ROOT for n, e in cert.items()):
+        out.append("root-certificate-reappears-in-chain")
     if abstract["rot"]["key"] != ROOT:
         out.append({"wrong": "rot=wrong", "foreign": "rot=foreign-root"}.get(abstract["rot"]["key"],
                                                                             "rot=top-element"))
@@ -791,7 +895,7 @@ def rsa_issues_x509(plan):
 # ------------------------------------------------------------------------------------------------
 # the check
 # ------------------------------------------------------------------------------------------------
-SYS_ACTIONS = ("Mutate", "MutateName", "Stretch", "Shift", "Start", "ParseStep", "Build", "Walk", "Tick")
+SYS_ACTIONS = ("Mutate", "MutateName", "Stretch", "Shift", "Lengthen", "Start", "ParseStep", "Build", "Walk", "Tick")
 
 
 def payload_of(t):
@@ -868,6 +972,8 @@ def selftest_trace_spec(traces, next_id, have_violations=False):
 
 def run(ctx):
     res = core.Result()
+    # paths of 500+ elements: TLC evaluates the recursive Path / SpecValid of CertV2Props on them
+    os.environ.setdefault("JAVA_TOOL_OPTIONS", "-Xss512m")
     res.assumptions = [
         "perfect cryptography (DESIGN 3.3): a signature verifies only under the key that made it over "
         "the exact message; SHA-256 has no collisions — a flipped byte of a message / signature / auth "
@@ -903,11 +1009,22 @@ def run(ctx):
     certv2.self_test()
     # 1. design check, exhaustive ---------------------------------------------------------------
     # (quick: histories of 2 validations, thorough: of 3)
-    r = tlc.check("CertV2", ctx.pick("MCq_CertV2.cfg", "MC_CertV2.cfg"), coverage=True, workers=4)
+    # quick: ONE exhaustive run serves as design check and as generator (Genq_CertV2.cfg carries every
+    # invariant of MC_CertV2.cfg; the liveness property is checked in the thorough tier)
+    gen_early = None
+    if ctx.quick:
+        try:
+            gen_early = tlc.generate("GenCertV2", "Genq_CertV2.cfg", coverage=True)
+        except tlc.TLCError as e:
+            raise core.MachineryError("CertV2 model: %s" % e)
+        r = gen_early[1]
+    else:
+        r = tlc.check("CertV2", "MC_CertV2.cfg", coverage=True, workers=4)
     if r.violated:
         raise core.MachineryError("CertV2 model violates %s — model of the code and reference "
                                   "semantics disagree; reproduce on the code before reporting" % r.violated)
-    res.add_tlc(r, "MC_CertV2 exhaustive (+ liveness Terminates)")
+    res.add_tlc(r, "Genq_CertV2 exhaustive, all invariants + generation" if ctx.quick
+                else "MC_CertV2 exhaustive (+ liveness Terminates)")
     counts = r.action_counts()
     never = [a for a in SYS_ACTIONS if counts.get(a, 0) == 0]
     if never:
@@ -927,11 +1044,15 @@ def run(ctx):
         raise core.MachineryError("vacuity guard: no verdict ever changes between two validations")
     # 2. every abstract certificate ---------------------------------------------------------------
     # (quick: clock histories of 2 validations, thorough: of 3)
-    behaviours, rg = tlc.generate("GenCertV2", ctx.pick("Genq_CertV2.cfg", "Gen_CertV2.cfg"))
-    res.add_tlc(rg, "Gen_CertV2 certificates")
+    if gen_early:
+        behaviours, rg = gen_early
+    else:
+        behaviours, rg = tlc.generate("GenCertV2", "Gen_CertV2.cfg")
+        res.add_tlc(rg, "Gen_CertV2 certificates")
     uniq = {}
     for b in behaviours:
-        uniq.setdefault(json.dumps([b["cert"], b["rot"], b["clks"], b["scale"], b["tz"]], sort_keys=True), b)
+        uniq.setdefault(json.dumps([b["cert"], b["rot"], b["clks"], b["scale"], b["tz"], b["len"]],
+                                   sort_keys=True), b)
     behaviours = [uniq[k] for k in sorted(uniq)]
     res.coverage["behaviours_generated"] = len(behaviours)
     res.coverage["clock_histories_generated"] = sum(1 for b in behaviours if len(b["clks"]) > 1)
@@ -954,15 +1075,16 @@ def run(ctx):
                     or (b["nren"] == 0 and b["outcome"] == "valid" and not time_sensitive(b))
                     or (b["nren"] == 1 and timedef(b) and plain(b) and b["clks"] == [2, 1])
                     or (b["scale"] == "extreme" and plain(b))       # edge dates x every window defect
-                    or (b["tz"] in ("m8", "p14") and plain(b)))     # machine UTC offset x every window defect
+                    or (b["tz"] == ("m8", "p14")[ctx.seed % 2] and plain(b)))   # UTC offset x every window defect
         must = [b for b in behaviours if is_must(b)]
         rest = [b for b in behaviours if not is_must(b)]
         ctx.rng.shuffle(rest)
         rt = [b for b in rest if b["nren"] == 1 and timedef(b)][:100]
-        nl = [b for b in rest if b["outcome"] != "loaderror" and not (b["nren"] == 1 and timedef(b))][:500]
-        le = [b for b in rest if b["outcome"] == "loaderror"][:150]
-        chosen = must + rt + nl + le
-        nflip = 3
+        nl = [b for b in rest if b["outcome"] != "loaderror" and not (b["nren"] == 1 and timedef(b))][:300]
+        le = [b for b in rest if b["outcome"] == "loaderror"][:100]
+        lg = [b for b in rest if b["len"] == "long"][:30]       # long chains with one more deviation
+        chosen = must + rt + nl + le + [b for b in lg if b not in rt and b not in nl and b not in le]
+        nflip = 2
     else:
         # every certificate; of the four clock histories of a time-sensitive certificate with more than
         # one deviation, one (seeded); all four for single deviations and for the edge-date scale
@@ -986,7 +1108,9 @@ def run(ctx):
             tid += 1
             tasks.append((tid, ctx.seed, plan, {"src": "model", "plan": pi}, ctx.scratch))
             by_id[tid] = b
+    _t0 = time.time()
     traces = run_tasks(tasks)
+    res.coverage.setdefault("phase_wall_s", {})["model_certificates"] = round(time.time() - _t0, 1)
     # the concretisation must realise exactly the abstract certificate TLC asked for
     model_drift = 0
     for t in traces:
@@ -995,7 +1119,8 @@ def run(ctx):
             continue
         want = mapped_abstract(b)
         got = t.get("final") or t            # (a history: TLC's record shows the LAST instant)
-        if got["cert"] != want["cert"] or got["rot"] != want["rot"] or t["unspecified"]:
+        if deflate(got["cert"], t.get("fillers") or ()) != want["cert"] or got["rot"] != want["rot"] \
+                or t["unspecified"]:
             raise core.MachineryError("concretisation does not realise the abstract certificate: "
                                       "%s vs %s" % (json.dumps(t["cert"], sort_keys=True)[:600],
                                                     json.dumps(want["cert"], sort_keys=True)[:600]))
@@ -1036,14 +1161,16 @@ def run(ctx):
                                                                    "pos": pos, "mask": mask}]},
                                         {"src": "sweep", "el": e["name"], "field": f, "pos": pos},
                                         ctx.scratch))
+    _t0 = time.time()
     sweep = run_tasks(sweep_tasks)
+    res.coverage.setdefault("phase_wall_s", {})["byte_sweep"] = round(time.time() - _t0, 1)
     res.coverage["sweep_flips"] = len(sweep_tasks)
     res.coverage["sweep_positions"] = len({(t[3]["el"], t[3]["field"], t[3]["pos"]) for t in sweep_tasks})
     res.coverage["sweep_stride"] = stride
     res.coverage["encoding_level_positions_skipped"] = skipped
     all_traces += sweep
     # 5. random specs over the concrete domains (binding B) ------------------------------------------------
-    n_rand = ctx.pick(700, 12000)
+    n_rand = ctx.pick(600, 12000)
     rnd_tasks = []
     while len(rnd_tasks) < n_rand:
         plan = random_plan(ctx.rng)
@@ -1051,10 +1178,22 @@ def run(ctx):
             continue
         tid += 1
         rnd_tasks.append((tid, ctx.seed, plan, {"src": "random"}, ctx.scratch))
+    _t0 = time.time()
     rnd = run_tasks(rnd_tasks)
+    res.coverage.setdefault("phase_wall_s", {})["random"] = round(time.time() - _t0, 1)
     res.coverage["random_certificates"] = len(rnd)
     res.coverage["random_unspecified_skipped"] = sum(1 for t in rnd if t["unspecified"])
     all_traces += rnd
+    # 5a. scale: chains of 254 .. 520 X.509 elements ---------------------------------------------------
+    sc_tasks = []
+    for plan, meta in scale_profiles(ctx.rng, ctx.quick):
+        tid += 1
+        sc_tasks.append((tid, ctx.seed, plan, meta, ctx.scratch))
+    _t0 = time.time()
+    sc = run_tasks(sc_tasks)
+    res.coverage.setdefault("phase_wall_s", {})["long_chains"] = round(time.time() - _t0, 1)
+    res.coverage["long_chain_profiles"] = len(sc_tasks)
+    all_traces += sc
     # 5b. numeric boundaries of every decoded integer of the quote (genuine certificates) ---------------
     prof_tasks = []
     for lay, where in ((certv2.QUOTE_HEADER, "header"), (certv2.REPORT_BODY, "body")):
@@ -1068,11 +1207,15 @@ def run(ctx):
                 tid += 1
                 prof_tasks.append((tid, ctx.seed, {"spec": sp, "flips": []},
                                    {"src": "int-boundary", "field": n, "value": hex(v)}, ctx.scratch))
+    _t0 = time.time()
     prof = run_tasks(prof_tasks)
+    res.coverage.setdefault("phase_wall_s", {})["int_boundaries"] = round(time.time() - _t0, 1)
     res.coverage["integer_boundary_profiles"] = len(prof)
     all_traces += prof
     # 6. TLC judges every observation ---------------------------------------------------------------
+    _t0 = time.time()
     accepted, drift = judge(res, all_traces, "all")
+    res.coverage.setdefault("phase_wall_s", {})["tlc_trace_validation"] = round(time.time() - _t0, 1)
     res.coverage["harness_errors"] = len(HARNESS_ERRORS)
     if HARNESS_ERRORS and not res.violations:
         raise core.MachineryError("%d task(s) failed inside the harness, first: %s" % (
@@ -1088,6 +1231,8 @@ def run(ctx):
     res.coverage["unexpected_exceptions"] = sorted({t["exc"] for t in all_traces
                                                     if t["exc"] and t["exc"].startswith("validate")})[:5]
     res.coverage["validations_after_clock_moved"] = sum(1 for t in all_traces if t["meta"].get("round", 1) > 1)
+    res.coverage["certificates_with_256_or_more_x509"] = sum(
+        1 for t in all_traces if sum(1 for e in t["cert"].values() if e["kind"] == "x509") >= 256)
     res.coverage["runs_with_machine_utc_offset"] = sum(1 for t in all_traces if t["meta"].get("tz", "utc") != "utc")
     res.coverage["frozen_clock_boundary_runs"] = sum(1 for t in all_traces if t["meta"].get("frozen_clock"))
     res.coverage["noncanonical_naming_certificates"] = sum(
@@ -1103,6 +1248,7 @@ def run(ctx):
 
 
 def replay(ctx, path):
+    os.environ.setdefault("JAVA_TOOL_OPTIONS", "-Xss512m")
     with open(path) as f:
         data = json.load(f)
     rp = data["replay"]
